@@ -8,8 +8,8 @@
 //! transaction ids, the reservation index (`utxo_map`), the cached routing work and
 //! the golden-ticket pool, writes Coq case files comparing them with
 //! `Mempool.trace`, and evaluates the property (I1..I5 of DESIGN §8 C14) directly
-//! on the implementation.  The one listed finding: a pooled transaction that grows
-//! older than the age rule of Transaction::validate allows stays pooled.
+//! on the implementation.  No listed finding is left at this commit; the histories
+//! of the fixed ones are the scripted cases.
 use std::collections::{BTreeMap, BTreeSet};
 use std::panic::{catch_unwind, AssertUnwindSafe};
 
@@ -31,17 +31,13 @@ const NODE_KEY: u8 = 1;
 const BUILDER_KEY: u8 = 2;
 const GAP: u64 = 120_000;
 
+/// listed findings an oracle failure can fall into: none at this commit (every class
+/// reproduced on earlier trees is fixed; see known_findings.txt)
 #[derive(Clone, Copy, PartialEq, Eq, Debug, PartialOrd, Ord)]
-enum Class {
-    /// a pooled transaction grew older than the age rule of Transaction::validate allows
-    /// while it sat in the pool (the revalidation after a block looks at the utxoset only)
-    Aged,
-}
+enum Class {}
 impl Class {
     fn id(&self) -> &'static str {
-        match self {
-            Class::Aged => "aged-tx-stays-pooled",
-        }
+        match *self {}
     }
 }
 
@@ -333,33 +329,20 @@ impl Ctx {
                 self.finding(format!("I1: pooled transactions {:?} all spend output {} after {:?}", ids, k, kind), None);
             }
         }
-        // I2: every pooled transaction validates against the ledger -- the utxoset lookup
-        // the pool itself re-applies after a block, and Transaction::validate as a whole
-        let mut bad: Vec<(SaitoSignature, bool)> = vec![];
+        // I2: every pooled transaction validates against the ledger -- the utxoset lookup and
+        // Transaction::validate as a whole (age rule included)
+        let mut bad: Vec<SaitoSignature> = vec![];
         for (sig, tx) in self.node.mempool.transactions.iter() {
-            let lookup = tx.validate_against_utxoset(&self.node.blockchain.utxoset);
-            let full = tx.validate(&self.node.blockchain.utxoset, &self.node.blockchain, true);
-            if !lookup {
-                bad.push((*sig, false));
-            } else if !full {
-                // known only when nothing but the age rule refuses it
-                let rest = tx.validate(&self.node.blockchain.utxoset, &self.node.blockchain, false);
-                let next = self.node.blockchain.get_latest_block_id() + 1;
-                let aged = tx.from.iter().any(|s| {
-                    s.amount > 0 && s.slip_type != SlipType::Bound && s.block_id + self.params.genesis_period < next
-                });
-                bad.push((*sig, rest && aged));
+            if !tx.validate_against_utxoset(&self.node.blockchain.utxoset)
+                || !tx.validate(&self.node.blockchain.utxoset, &self.node.blockchain, true)
+            {
+                bad.push(*sig);
             }
         }
-        for (sig, aged) in bad {
+        for sig in bad {
             let id = self.it.get(&sig);
-            if aged {
-                let what = format!("I2: pooled transaction {} no longer passes Transaction::validate after {:?}: an input is older than the genesis period", id, kind);
-                self.finding(what, Some(Class::Aged));
-            } else {
-                let what = format!("I2: pooled transaction {} does not validate against the ledger after {:?}", id, kind);
-                self.finding(what, None);
-            }
+            let what = format!("I2: pooled transaction {} does not validate against the ledger after {:?}", id, kind);
+            self.finding(what, None);
         }
         // I3: every reservation belongs to a pooled transaction, every input of a pooled
         // transaction is reserved
@@ -573,20 +556,24 @@ impl Ctx {
         self.record(coq, format!("golden ticket for block {}", t), obs);
     }
 
-    /// pools a golden ticket for `target` that does NOT solve it (add_golden_ticket does not
-    /// look at the solution); only possible when the target's difficulty is > 0
+    /// pools a golden ticket for `target` that Block::validate would refuse (add_golden_ticket
+    /// looks at neither the solution nor the key)
     async fn op_add_bad_gt(&mut self, target: SaitoHash, seed: u64) -> bool {
         let difficulty = self.node.blockchain.get_block(&target).map(|b| b.difficulty).unwrap_or(0);
-        if difficulty == 0 {
-            return false;
-        }
-        let mut r = hash(&seed.to_be_bytes());
-        let gt = loop {
-            let gt = GoldenTicket::create(target, r, self.node.pk);
-            if !gt.validate(difficulty) {
-                break gt;
+        // either a ticket whose hash misses the difficulty (needs difficulty > 0), or one that
+        // solves the target but names the all-zero key (Block::validate refuses both; 6a5c788)
+        let gt = if difficulty == 0 || seed % 2 == 0 {
+            self.stat("add_gt:zero-key");
+            mine_golden_ticket(target, difficulty, [0; 33], seed)
+        } else {
+            let mut r = hash(&seed.to_be_bytes());
+            loop {
+                let gt = GoldenTicket::create(target, r, self.node.pk);
+                if !gt.validate(difficulty) {
+                    break gt;
+                }
+                r = hash(&r);
             }
-            r = hash(&r);
         };
         let pre = self.snap();
         let gttx = saito_core::core::consensus::wallet::Wallet::create_golden_ticket_transaction(gt, &self.node.pk, &self.node.sk).await;
@@ -948,21 +935,9 @@ impl Ctx {
             resign(&mut block, &sk);
             Some(self.op_give_block(block, "bundled-then-corrupted", false).await)
         } else {
-            // "yields a valid block": the node and the second node must accept it.  One listed
-            // way to miss that: can_bundle_block counted the routing work of transactions that
-            // Block::create then left out (they had grown too old in the pool)
-            let shortfall = left_out_work > 0 && pre.work.wrapping_sub(left_out_work) < work_needed;
-            let r = self.op_give_block(block, "bundled", !shortfall).await;
-            if shortfall && r == AddClass::Invalid {
-                self.finding(
-                    format!(
-                        "I4: bundled block rejected: can_bundle_block counted routing work {} >= {} needed, of which {} belongs to transactions Block::create left out",
-                        pre.work, work_needed, left_out_work
-                    ),
-                    Some(Class::Aged),
-                );
-            }
-            Some(r)
+            // "yields a valid block": the node and the second node must accept it
+            let _ = left_out_work;
+            Some(self.op_give_block(block, "bundled", true).await)
         }
     }
 
@@ -1133,9 +1108,8 @@ async fn scripted(c: &mut Ctx, which: u64) {
         }
         // window edge (genesis period 5).  At tip 5 outputs of block 1 may still be spent
         // (age rule of Transaction::validate); transactions doing so are pooled, a peer block
-        // moves the tip to 6: they stay pooled although validate() now refuses them (listed
-        // finding aged-tx-stays-pooled), and the node's next block (7) rebroadcasts what they
-        // spend.  6: one spends only such an output, another is unrelated (before 1214e31 the
+        // moves the tip to 6: the revalidation drops them (they stayed pooled before the repair
+        // of aged-tx-stays-pooled; the node's next block, 7, rebroadcasts what they spend).  6: one spends only such an output, another is unrelated (before 1214e31 the
         // whole pool was lost; now the unrelated one is bundled).  7: one spends such an output
         // AND a young output; the bundled block is corrupted so that its addition fails, then
         // the young output is spent by a fresh transaction (it stayed reserved before ffb4da9)
